@@ -956,7 +956,7 @@ func (r *rw) chanStmt(s ast.Stmt) (pre []ast.Stmt, repl ast.Stmt) {
 			}
 			if cc.Comm == nil {
 				hasDefault = "true"
-				clauses = append(clauses, &ast.CaseClause{List: []ast.Expr{&ast.UnaryExpr{Op: token.SUB, X: intLit(1)}}, Body: cc.Body})
+				clauses = append(clauses, &ast.CaseClause{Body: cc.Body}) // default: (index -1)
 				continue
 			}
 			ch := ast.NewIdent(fmt.Sprintf("verifSel%dc%d", n, idx))
@@ -1001,6 +1001,12 @@ func (r *rw) chanStmt(s ast.Stmt) (pre []ast.Stmt, repl ast.Stmt) {
 			}
 			clauses = append(clauses, &ast.CaseClause{List: []ast.Expr{intLit(idx)}, Body: body})
 			idx++
+		}
+		if hasDefault == "false" {
+			// a select whose clauses all end in a terminating statement is itself
+			// terminating; the switch that replaces it must be too
+			clauses = append(clauses, &ast.CaseClause{Body: []ast.Stmt{&ast.ExprStmt{X: &ast.CallExpr{Fun: ast.NewIdent("panic"),
+				Args: []ast.Expr{&ast.BasicLit{Kind: token.STRING, Value: `"verifsim: select chose no clause"`}}}}}})
 		}
 		args := append([]ast.Expr{ast.NewIdent(hasDefault)}, cases...)
 		pre = append(pre, &ast.AssignStmt{Lhs: []ast.Expr{sel}, Tok: token.DEFINE, Rhs: []ast.Expr{simCall("Select", args...)}})
